@@ -330,6 +330,23 @@ func (update *Update) Prepend(eventlist *EventList) error {
 	if count == 0 {
 		return nil
 	}
+	if len(update.Events) == 0 {
+		// We hold no events of our own (an update that only carries a (re)signed accumulator):
+		// the list is taken over as it is, provided it leads up to our accumulator.
+		n := &Update{
+			SignedAccumulator: update.SignedAccumulator,
+			Events:            append([]*Event{}, eventlist.Events...),
+		}
+		if eventlist.product != nil {
+			n.product = new(big.Int).Set(eventlist.product)
+			n.productFrom = n.Events[0].Index
+		}
+		if err := NewEventList(n.Events...).Verify(n.SignedAccumulator.Accumulator); err != nil {
+			return err
+		}
+		*update = *n
+		return nil
+	}
 	ours := update.Events[0].Index
 	last := eventlist.Events[count-1].Index
 	if last < ours-1 {
